@@ -75,6 +75,11 @@ def build_vh(race=False):
         t0 = time.time()
         p = subprocess.run(cmd, cwd=HARNESS, env=env, stdout=subprocess.PIPE,
                            stderr=subprocess.STDOUT, text=True)
+        if p.returncode != 0 and "is not in std" in p.stdout:
+            # the Go build cache was cleaned under the running build (seen once): the toolchain itself is intact
+            time.sleep(5)
+            p = subprocess.run(cmd, cwd=HARNESS, env=env, stdout=subprocess.PIPE,
+                               stderr=subprocess.STDOUT, text=True)
         if p.returncode != 0:
             # A tree that does not compile is not something a property check can judge.
             raise Infra("harness build failed:\n" + p.stdout[-4000:])
